@@ -175,9 +175,11 @@ func c14core(c *Ctx, f *ssa.Function) {
 			return true, ""
 		}
 		if p.Exit == px.ExitPanic {
-			// re-raising the body's panic after the rollback also reports it
+			// the statement: "the panic is reported as an error" — a body that panicked makes Transact *return* a
+			// non-nil error; a finisher that re-raises (for every panic value or only for some, e.g. runtime.Error)
+			// loses the error assembled from the rollback and takes down callers that have no recover of their own
 			if b.PanicsHere {
-				return true, ""
+				return false, "the body's panic leaves Transact as a panic instead of being reported as the returned error (re-raised in the deferred finisher; a rollback failure recorded just before is lost with it)"
 			}
 			return false, "path panics although the body did not"
 		}
